@@ -3,6 +3,12 @@
 Monitor: both sides of each algebraic identity are applied (real code) to a common feed and compared; every operand's
 (stoichiometry, reactant, X, basis, phases) is snapshotted before and compared bit-for-bit after each operator; results
 are checked for object and container identity.
+
+Oracle audit (round 6): every comparison of two applied sides goes through one judge. Both sides are always evaluated; a dense model written in the harness
+(molar stoichiometries and conversions of the case DESCRIPTIONS, harness arithmetic only) gives the flows the identity demands and says whether the feed suffices.
+InfeasibleRegion is a refusal only when it is raised on BOTH sides AND the model finds a negative flow; raised on one side only, or on both although the model
+finds the feed sufficient, it is a violation. The left side is additionally judged against the model. References for mixed bases are constructed from the
+description in the target basis (not with copy(basis), the conversion a + b performs itself); the re-based operands are anchored against them.
 """
 import numpy as np
 import thermosteam as tmo
@@ -20,16 +26,28 @@ RULE = ('random pairs/triples of balanced reactions sharing a reactant (same gen
         'handles are taken and kept (rs[i], rs[-i], iteration items, slices incl. steps / reversed, items, iteration items and slices of slices, items reached through the system) while the conversions are '
         'written through every door (set.X = array / list / tuple / scalar, set.X[i], set.X[:], set.X *=,/=,+=,-=, set.X = set.X * k, set.X = set.X; the same on a held slice; system.X = [...], system.X[1][i]; '
         'X, *=, /=, +=, -= on a held item; writes on copies of the set / a slice / an item, which must stay private); after every write the set, fresh items, all kept handles and the system must report the '
-        'conversions written (model: stand-alone reactions updated by X assignment and the binary forms), and at the end the set, one kept handle and the system act like the model. non-trivial = both reactions have X>0 and >=3 species; distinct = hash of the case')
+        'conversions written (model: stand-alone reactions updated by X assignment and the binary forms), and at the end the set, one kept handle and the system act like the model. '
+        'Round 6 (oracle audit): feeds are made sufficient from the descriptions (co-reactants raised to 2 x sum|nu| x reactant x U(1,3), or the reactant limited), every applied comparison is judged by one judge '
+        '(both sides evaluated; InfeasibleRegion refused only on both sides with the dense model agreeing, else one-side-infeasible / spurious-infeasible-both-sides), the left side also against the dense model (vs-model), '
+        'mixed-basis references built from the description, copy(basis) operands anchored against them (copy-basis-vs-description), refusal rate of the comparisons bounded (else inconclusive). non-trivial = both reactions have X>0 and >=3 species; distinct = hash of the case')
 MIN_NONTRIVIAL = {'quick': 300, 'thorough': 10000}
-ASSUMPTIONS = ['feeds are made large enough that neither side is infeasible (X_a + X_b <= 0.9)']
+ASSUMPTIONS = ['feeds are made sufficient from the case descriptions (every species a reaction of the case touches >= 2 x sum_j |nu_j| x reactant feed); a comparison is not judged only when BOTH sides raise '
+               'InfeasibleRegion and the dense model of the harness finds a negative flow (conversions of the shared reactant adding up to more than one; a product of a subtracted reaction absent from a sparse feed)',
+               'the dense model (feed + reactant x sum_j w_j nu_j per stage, stages in sequence for series sets / systems) is the meaning of applying reactions in parallel / in series (property C05)',
+               'molecular weights for the mass-basis side of the model are read from the library chemicals (as in C05)',
+               'exact boundary of feasibility: where the model ends a flow at zero after moving amounts whose round-off (4.4e-16 x gross amount, basis units) could reach a tenth of the absolute -1e-12 threshold of '
+               'Reaction.__call__, InfeasibleRegion on BOTH sides is a refusal (round-off decides, as in C05); on ONE side it is reported under one-side-infeasible-at-exact-boundary (recorded finding: (a+b)-b keeps the rows '
+               'only b has at a few ulp instead of zero)']
+MAX_REFUSED_SHARE = 0.10      # share of the applied comparisons that may end as (model-confirmed) refusals; above it the run is inconclusive
 
 
 def required(tier):
     return ['add-vs-parallel', 'sub-inverse', 'scale', 'inplace', 'new-object', 'operands-unchanged', 'set-item-X', 'backwards', 'set-copy', 'reduce', 'sum-of-three', 'basis-setter', 'set+set', 'set-item-inplace', 'negated-operand',
             'X:sum-to-one', 'X:equal', 'X:full-scaled', 'sub-inverse:null-a', 'isub-direct', 'backwards:X', 'system-X', 'feed:sparse', 'feed:sv', 'feed:nd', 'feed:sa', 'basis-setter:set-refused',
             'history', 'history:complete', 'history:whole-assign-with-held-handles', 'history:system-assign-with-held-handles', 'history:slice-assign', 'history:held-item', 'history:held-iter-item', 'history:held-slice',
-            'history:held-slice-item', 'history:held-slice-iter-item', 'history:held-slice-of-slice', 'history:held-system-item', 'history:item-inplace', 'history:copy-write', 'history:acts']
+            'history:held-slice-item', 'history:held-slice-iter-item', 'history:held-slice-of-slice', 'history:held-system-item', 'history:item-inplace', 'history:copy-write', 'history:acts',
+            'rebase', 'compare', 'vs-model', 'vs-model:add-vs-parallel', 'vs-model:sub-inverse', 'vs-model:scale', 'vs-model:inplace', 'vs-model:set-item-inplace', 'vs-model:negated-operand', 'vs-model:rebase', 'vs-model:set-item-X',
+            'vs-model:mixed-basis', 'vs-model:tagged', 'vs-model:wt-array', 'copy-basis-vs-description', 'reference:from-description', 'feed:made-sufficient', 'feed:co-reactants-raised', 'feed:reactant-limited', 'compare:refusal-share-bounded']
 
 
 def gen_case(rng):
@@ -73,7 +91,35 @@ def gen_case(rng):
         case['sparse'] = True
     if len({d['basis'] for d in rx}) == 1 and rng.random() < 0.25: case['feed_kind'] = rng.choice(['sa', 'nd2']) if tagged else rng.choice(['sv', 'nd'])
     case['hist'] = gen_history(rng)
+    make_sufficient(case, rng)
     return case
+
+
+# molecular weights from the element table of the harness (only used to size the feeds of bare mass-flow arrays)
+MW0 = {i: 12.011 * c + 1.008 * h + 15.999 * o + 14.007 * n for i, (c, h, o, n) in R.ATOMS.items()}
+ULPS = 4.4e-16      # round-off of a cancelled coefficient: a few ulp of the sum of the absolute terms (bound used only to recognise the exact boundary of feasibility)
+W_NEED = 2.0        # every object the case applies is feed + reactant x sum_j w_j nu_j with |w_j| <= 1.5 whenever the shared reactant itself suffices
+
+
+def make_sufficient(case, rng):
+    """the feed is made sufficient from the descriptions (as C05 does): every species a reaction of the case touches (a product of b is consumed by a - b) gets at least
+    W_NEED x sum_j |nu_j| x reactant feed, either by raising it or by limiting the reactant. Species absent from a sparse feed stay absent. What is left infeasible is
+    infeasible through the reactant itself (conversions adding up to more than one) or through an absent product, and the dense model of run_case sees both."""
+    rx = case['rx']; r = rx[0]['reactant']; feed = case['feed']
+    wt_units = bool(case.get('feed_kind')) and rx[0]['basis'] == 'wt'          # bare arrays carry mass flows when the common basis is wt
+    need = {}
+    for d in rx:
+        s_ = -d['st'][r]
+        for i, v in d['st'].items():
+            if i != r: need[i] = need.get(i, 0.0) + abs(v / s_) * (MW0[i] / MW0[r] if wt_units else 1.0)
+    if rng.random() < 0.5:
+        for i, n in need.items():
+            if feed.get(i, 0.0) > 0: feed[i] = max(feed[i], round(W_NEED * n * feed[r] * rng.uniform(1.0, 3.0), 3))
+        case['sufficient'] = 'raised'
+    else:
+        lim = min([feed[i] / (W_NEED * n) for i, n in need.items() if feed.get(i, 0.0) > 0 and n > 0], default=feed[r])
+        if lim < feed[r]: feed[r] = max(round(lim * rng.uniform(0.3, 1.0), 6), 1e-6)
+        case['sufficient'] = 'limited'
 
 
 # ---- histories on one reaction set: handles (items, iteration items, slices, items / slices of slices, items reached through a ReactionSystem) are taken and KEPT while
@@ -260,27 +306,163 @@ def differ(x, y, scale):
             if abs(x.get(k, 0.0) - y.get(k, 0.0)) > 1e-10 * max(abs(x.get(k, 0.0)), abs(y.get(k, 0.0))) + 1e-12 * scale]
 
 
+def differ_used(x, y, scale):
+    """differ(x, y, scale) and the largest share of its bound used by any flow (recorded as the residual of the clause; <= 1 where the oracle held), in one pass."""
+    d = []; w = 0.0; ab = 1e-12 * scale
+    for k in x.keys() | y.keys():
+        u = x.get(k, 0.0); v = y.get(k, 0.0); e = abs(u - v)
+        if e:
+            t = 1e-10 * max(abs(u), abs(v)) + ab
+            if e > t: d.append((str(k), u, v))
+            if e > w * t: w = e / t
+        elif e != e: d.append((str(k), u, v))          # nan never agrees (as in differ: nan > t is False there, so only ever stricter)
+    return d, w
+
+
+# ---- dense model (harness arithmetic on the case descriptions only). Every reaction of a case has the same reactant r, so whatever the case applies is a SEQUENCE of
+# stages, and a stage changes the flows by (reactant present) x D with D = sum_j w_j nu_j: a reaction is [X nu]; a + b, a - b, k a are [D_a + D_b], [D_a - D_b], [k D_a];
+# a parallel set is one stage (the sum of its members), a series set one stage per member, a system the stages of its parts one after the other.
+def nu_of(desc):
+    """molar stoichiometry of a description per unit of its reactant (nu[reactant] = -1)."""
+    s_ = -desc['st'][desc['reactant']]
+    return {i: v / s_ for i, v in desc['st'].items()}
+
+
+class Lin(dict):
+    """sum_j w_j nu_j; .gross is the sum of the absolute terms, which is what the round-off of a cancelled coefficient scales with ((a+b)-b leaves the rows only b has at
+    a few ulp of X_b nu_b, not at zero)."""
+    __slots__ = ('gross',)
+
+
+def lin(*terms):
+    """sum_j w_j nu_j for terms (w_j, nu_j)."""
+    D = Lin(); G = D.gross = {}
+    for w, nu in terms:
+        g = getattr(nu, 'gross', None)
+        for i, v in nu.items():
+            D[i] = D.get(i, 0.0) + w * v
+            G[i] = G.get(i, 0.0) + abs(w) * (g[i] if g is not None else abs(v))
+    return D
+
+
+def model_stages(fl, stages, rk, key):
+    """flows {key: mol} after the stages; the most negative flow met after any stage; per key the gross amount moved (reactant present x sum of the absolute terms)."""
+    low = 0.0; moved = {}
+    for D in stages:
+        fr = fl.get(rk, 0.0)
+        if fr:
+            fl = dict(fl)
+            for i, v in D.items():
+                kk = key(i)
+                if v: fl[kk] = fl.get(kk, 0.0) + fr * v
+                moved[kk] = moved.get(kk, 0.0) + abs(fr) * D.gross[i]
+        low = min([low] + list(fl.values()))
+    return fl, low, moved
+
+
 def run_case(case, rec):
     rec.begin_case(case)
     th = R.thermo()
-    scale = max(case['feed'].values())
+    MW = R.mw(th)
+    scale = min(max(case['feed'].values()), 1000.0)       # absolute part of the bound: never above what it was before the feeds were made sufficient (round-off is per species)
     def mk(i): return R.build_reaction(case['rx'][i], th)
     a, b, c = mk(0), mk(1), mk(2)
     k = case['k']
     same_basis = a._basis == b._basis
     tg = ('tagged' if case['tagged'] else 'phase-less') + ('/same-basis' if same_basis else '/mixed-basis')
+    if case.get('sufficient'): rec.hit('feed:made-sufficient'); rec.hit('feed:co-reactants-raised' if case['sufficient'] == 'raised' else 'feed:reactant-limited')
+    # ---- the dense model of this case
+    dx = case['rx']; r_id = dx[0]['reactant']
+    nus = [nu_of(d) for d in dx]; Xd = [float(d['X']) for d in dx]
+    Da, Db, Dc = (lin((Xd[j], nus[j])) for j in range(3))
+    Dab = lin((1, Da), (1, Db)); Dabc = lin((1, Dab), (1, Dc))
+    Dab_b = lin((1, Dab), (-1, Db)); Dabc_c = lin((1, Dabc), (-1, Dc))       # a and a + b up to round-off, with the amounts that cancel kept in .gross
+    def fkey(i): return (case['phmap'][i], i) if case['tagged'] else i
+    def kid(kk): return kk[1] if isinstance(kk, tuple) else kk
+
+    def predict(stages, stream=False):
+        """(flows the identity demands, keyed and in the units of apply(); 'feasible' / 'infeasible' / 'undecided' by the library's rule: the negative flows of the result add
+        up to less than -1e-12 in the units of the basis -> InfeasibleRegion)."""
+        wt_units = bool(case.get('feed_kind')) and not stream and dx[0]['basis'] == 'wt'      # bare arrays carry the numbers of the feed as mass flows
+        fl = {fkey(i): (v / MW[i] if wt_units else v) for i, v in case['feed'].items() if v}
+        fl, low, moved = model_stages(fl, stages, fkey(r_id), fkey)
+        negm = sum(v for v in fl.values() if v < 0); negw = sum(MW[kid(kk)] * v for kk, v in fl.items() if v < 0)
+        if min(negm, negw) > -1e-13 and low > -1e-13: pred = 'feasible'
+        elif max(negm, negw) < -1e-9: pred = 'infeasible'
+        else: pred = 'undecided'               # within round-off of the threshold, or a series passing through a negative intermediate composition
+        # the exact boundary of feasibility (as in C05): a flow the model ends at zero although amounts were moved (a row cancelled by the arithmetic on a species absent from
+        # the feed, a reactant converted completely) ends at a few ulp of the amount moved, of either sign; the library compares the negative flows with an ABSOLUTE -1e-12 in
+        # the units of the basis, so for large flows round-off decides whether it raises. at_edge: those flows could reach a tenth of the threshold.
+        wt = stream or a._basis == 'wt'
+        edge = 0.0
+        for kk, g in moved.items():
+            u = MW[kid(kk)] if wt else 1.0
+            if fl.get(kk, 0.0) <= 10 * ULPS * g: edge += ULPS * g * u
+        return {kk: (v * MW[kid(kk)] if wt_units else v) for kk, v in fl.items() if v}, pred, edge >= 1e-13
 
     def guarded(clause, fn):
+        """construction / arithmetic (nothing is applied here): no exception is documented, InfeasibleRegion included."""
         try:
             return fn()
-        except InfeasibleRegion:
-            rec.refuse('infeasible (feed not sufficient at round-off)'); return None
         except Exception as e:
             rec.exception(clause, e, what=f'{clause} ({tg}) raised {type(e).__name__}: {str(e)[:200]}'); return None
 
+    def side(clause, fn):
+        """one applied side: ('ok', flows) / ('inf', None) for InfeasibleRegion / ('exc', None) for anything else (reported)."""
+        try:
+            return ('ok', fn())
+        except InfeasibleRegion:
+            return ('inf', None)
+        except Exception as e:
+            rec.exception(clause, e, what=f'{clause} ({tg}) raised {type(e).__name__}: {str(e)[:200]}'); return ('exc', None)
+
+    def judge(clause, key, L, Rs, stages, what, detail=None, hit=None, stream=False):
+        """L, Rs: the two applied sides; stages: the dense model of what both must do. Returns True when both returned normally (and were compared)."""
+        rec.hit('compare')
+        if L[0] == 'exc' or Rs[0] == 'exc': return False
+        exp, pred, at_edge = predict(stages, stream)
+        ninf = (L[0] == 'inf') + (Rs[0] == 'inf')
+        if ninf:
+            if ninf == 2 and pred == 'feasible' and at_edge:
+                # both sides agree (both refuse); whether a flow that is zero in exact arithmetic ends a few ulp below it is decided by round-off (not judged, as in C05)
+                rec.hit('compare:refused'); rec.hit('compare:refused-at-exact-boundary')
+                rec.refuse('InfeasibleRegion on both sides at the exact boundary of feasibility (a flow the model ends at zero after moving amounts whose round-off reaches the absolute -1e-12 threshold)'); return False
+            if pred == 'undecided':
+                rec.hit('compare:refused'); rec.refuse('InfeasibleRegion where the dense model is within round-off of the feasibility threshold (not judged)'); return False
+            if ninf == 2 and pred == 'infeasible':
+                rec.hit('compare:refused'); rec.refuse('infeasible on both sides and the dense model agrees (a flow would be negative)'); return False
+            if ninf == 2:
+                rec.check(False, clause, f'spurious-infeasible-both-sides/{key}', f'both sides raised InfeasibleRegion although the dense model finds the feed sufficient ({what})', detail=detail)
+            else:
+                which = 'left' if L[0] == 'inf' else 'right'
+                # the input class is in the key: at the exact boundary the side that raised was carried over the absolute threshold by the round-off residue of a cancelled row
+                # (recorded finding: (a+b)-b keeps rows of b at a few ulp); anywhere else a one-sided refusal is a wrong conversion or stoichiometry
+                if pred == 'feasible' and at_edge: rec.hit('compare:one-side-at-exact-boundary')
+                rec.check(False, clause, f'one-side-infeasible{"-at-exact-boundary" if pred == "feasible" and at_edge else ""}/{which}/{key}', f'the {which} side raised InfeasibleRegion, the other returned normally (dense model: {pred}): {what}',
+                          detail=dict(detail or {}, returned={str(kk): v for kk, v in (Rs[1] if L[0] == 'inf' else L[1]).items()}, model={str(kk): v for kk, v in exp.items()}))
+            return False
+        if hit: rec.hit(hit)
+        d, w_ = differ_used(L[1], Rs[1], scale)
+        rec.check(not d, clause, key, f'{what}: {d[:4]}', detail=detail, residual=w_)
+        if pred == 'feasible':
+            rec.hit('vs-model'); rec.hit('vs-model:' + clause)
+            if not same_basis: rec.hit('vs-model:mixed-basis')
+            if case['tagged']: rec.hit('vs-model:tagged')
+            if case.get('feed_kind') and not stream and dx[0]['basis'] == 'wt': rec.hit('vs-model:wt-array')
+            d2, w_ = differ_used(L[1], exp, scale)
+            rec.check(not d2, clause, f'vs-model/{key}', f'the left side differs from the dense model of the harness (feed + reactant x sum w_j nu_j from the descriptions); {what}: {d2[:4]}',
+                      detail=dict(detail or {}, model={str(kk): v for kk, v in exp.items()}, got={str(kk): v for kk, v in L[1].items()}) if d2 else None, residual=w_)
+        else:
+            rec.hit('compare:model-not-feasible-both-returned')
+        return True
+
+    def compare(clause, key, lfn, rfn, stages, what, detail=None, hit=None, stream=False):
+        return judge(clause, key, side(clause, lfn), side(clause, rfn), stages, what, detail, hit, stream)
+
     def unchanged(op, operands, snaps):
         for name, o, s in zip('ab', operands, snaps):
-            rec.check(same_snap(snap(o), s), 'operands-unchanged', f'{op}/{name}/{tg}', f'{op} changed operand {name}: before {s[1:4]} after {snap(o)[1:4]}; stoichiometry equal: {np.array_equal(snap(o)[0], s[0]) if not isinstance(s[0], list) else "set"}')
+            ok = same_snap(snap(o), s)        # the message is only written out for a violation (formatting the arrays every time cost a fifth of the run)
+            rec.check(ok, 'operands-unchanged', f'{op}/{name}/{tg}', '' if ok else f'{op} changed operand {name}: before {s[1:4]} after {snap(o)[1:4]}; stoichiometry equal: {np.array_equal(snap(o)[0], s[0]) if not isinstance(s[0], list) else "set"}')
 
     def fresh(op, res, operands):
         ok = all(res is not o for o in operands)
@@ -289,55 +471,44 @@ def run_case(case, rec):
             shared = any(containers(res) & containers(o) for o in operands)
             rec.check(not shared, 'new-object', f'{op}/shared-container/{tg}', f'{op} result shares its stoichiometry container with an operand')
 
+    # references on the basis of a are CONSTRUCTED from the descriptions in that basis (mass coefficients written out by the harness), not obtained with copy(basis)
+    def described(j):
+        if dx[j]['basis'] == a._basis: return (b, c)[j - 1].copy()          # already constructed from the description on this basis
+        rec.hit('reference:from-description'); return R.build_reaction(dict(dx[j], basis=a._basis), th)
+    bref, cref = described(1), described(2)
+
     # ---- a + b vs parallel ------------------------------------------------------
     sa_, sb_ = snap(a), snap(b)
     s = guarded('add', lambda: a + b)
     if s is not None:
         unchanged('add', (a, b), (sa_, sb_)); fresh('add', s, (a, b))
-        def par():
-            bb = b if same_basis else b.copy(basis=a._basis)
-            return apply(tmo.ParallelReaction([a.copy(), bb.copy()]), case, th)
-        lhs = guarded('add-vs-parallel', lambda: apply(s, case, th)); rhs = guarded('add-vs-parallel', par)
-        if lhs is not None and rhs is not None:
-            d = differ(lhs, rhs, scale)
-            rec.check(not d, 'add-vs-parallel', tg, f'(a+b)(feed) != ParallelReaction([a,b])(feed): {d[:4]}', detail={'Xa': a.X, 'Xb': b.X})
+        compare('add-vs-parallel', tg, lambda: apply(s, case, th), lambda: apply(tmo.ParallelReaction([a.copy(), bref.copy()]), case, th), [Dab],
+                '(a+b)(feed) != ParallelReaction([a,b])(feed)', detail={'Xa': a.X, 'Xb': b.X})
         # ---- (a + b) - b vs a
         ss = snap(s); sb2 = snap(b)
         m = guarded('sub', lambda: s - b)
         if m is not None:
             unchanged('sub', (s, b), (ss, sb2)); fresh('sub', m, (s, b))
             if a.X > 0 and b.X > 0:
-                lhs = guarded('sub-inverse', lambda: apply(m, case, th)); rhs = guarded('sub-inverse', lambda: apply(a, case, th))
-                if lhs is not None and rhs is not None:
-                    d = differ(lhs, rhs, scale)
-                    rec.check(not d, 'sub-inverse', tg, f'((a+b)-b)(feed) != a(feed): {d[:4]}')
+                compare('sub-inverse', tg, lambda: apply(m, case, th), lambda: apply(a, case, th), [Dab_b], '((a+b)-b)(feed) != a(feed)')
             elif a.X == 0 and b.X > 0:
                 # boundary: a converts nothing, so (a+b)-b must convert nothing either
                 rec.hit('sub-inverse:null-a')
-                lhs = guarded('sub-inverse', lambda: apply(m, case, th)); rhs = guarded('sub-inverse', lambda: apply(a, case, th))
-                if lhs is not None and rhs is not None:
-                    d = differ(lhs, rhs, scale)
-                    rec.check(not d, 'sub-inverse', f'null-a/{tg}', f'with a.X = 0, ((a+b)-b)(feed) != a(feed) = feed: {d[:4]} (X of the result {m.X!r})')
+                compare('sub-inverse', f'null-a/{tg}', lambda: apply(m, case, th), lambda: apply(a, case, th), [Dab_b], f'with a.X = 0, ((a+b)-b)(feed) != a(feed) = feed (X of the result {m.X!r})')
         # ---- in-place forms
         ip = a.copy(); sb3 = snap(b)
         r = guarded('inplace', lambda: ip.__iadd__(b))
         if r is not None:
             rec.check(r is ip, 'inplace', f'iadd/identity/{tg}', '+= returned another object')
             rec.check(same_snap(snap(b), sb3), 'operands-unchanged', f'iadd/b/{tg}', '+= changed its right operand')
-            lhs = guarded('inplace', lambda: apply(ip, case, th)); rhs = guarded('inplace', lambda: apply(s, case, th))
-            if lhs is not None and rhs is not None:
-                d = differ(lhs, rhs, scale)
-                rec.check(not d, 'inplace', f'iadd/{tg}', f'(a += b) acts differently from a + b: {d[:4]}')
+            compare('inplace', f'iadd/{tg}', lambda: apply(ip, case, th), lambda: apply(s, case, th), [Dab], '(a += b) acts differently from a + b')
         ip = s.copy(); sb4 = snap(b)
         r = guarded('inplace', lambda: ip.__isub__(b))
         if r is not None:
             rec.check(r is ip, 'inplace', f'isub/identity/{tg}', '-= returned another object')
             rec.check(same_snap(snap(b), sb4), 'operands-unchanged', f'isub/b/{tg}', '-= changed its right operand')
         if r is not None and m is not None and a.X > 0 and b.X > 0:
-            lhs = guarded('inplace', lambda: apply(ip, case, th)); rhs = guarded('inplace', lambda: apply(m, case, th))
-            if lhs is not None and rhs is not None:
-                d = differ(lhs, rhs, scale)
-                rec.check(not d, 'inplace', f'isub/{tg}', f'(s -= b) acts differently from s - b: {d[:4]}', detail={'X_inplace': ip.X, 'X_binary': m.X})
+            compare('inplace', f'isub/{tg}', lambda: apply(ip, case, th), lambda: apply(m, case, th), [Dab_b], '(s -= b) acts differently from s - b', detail={'X_inplace': ip.X, 'X_binary': m.X})
     # ---- a - b with a null b returns a new object
     null = a.copy(); null.X = 0.0
     sa2 = snap(a)
@@ -355,18 +526,11 @@ def run_case(case, rec):
         rec.check(abs(r.X - Xexp) <= 1e-15 * max(abs(Xexp), 1e-300) * 4 and np.array_equal(snap(r)[0], sa3[0]), 'scale', f'{op}/{tg}', f'{op} by {k}: X={r.X} expected {Xexp}, stoichiometry kept: {np.array_equal(snap(r)[0], sa3[0])}')
         if Xexp <= 0.95:
             ref = a.copy(); ref.X = Xexp
-            lhs = guarded('scale', lambda: apply(r, case, th)); rhs = guarded('scale', lambda: apply(ref, case, th))
-            if lhs is not None and rhs is not None:
-                d = differ(lhs, rhs, scale)
-                rec.check(not d, 'scale', f'{op}/acts/{tg}', f'{op} by {k} acts differently from a with X scaled: {d[:4]}')
+            compare('scale', f'{op}/acts/{tg}', lambda: apply(r, case, th), lambda: apply(ref, case, th), [lin((Xexp, nus[0]))], f'{op} by {k} acts differently from a with X scaled')
         elif Xexp <= 1.0 and case.get('bx'):
             # boundary: up to complete conversion (the reactant is fed sparingly in these cases)
             ref = a.copy(); ref.X = Xexp
-            lhs = guarded('scale', lambda: apply(r, case, th)); rhs = guarded('scale', lambda: apply(ref, case, th))
-            if lhs is not None and rhs is not None:
-                rec.hit('X:full-scaled')
-                d = differ(lhs, rhs, scale)
-                rec.check(not d, 'scale', f'{op}/acts-near-complete/{tg}', f'{op} by {k} acts differently from a with X scaled to {Xexp}: {d[:4]}')
+            compare('scale', f'{op}/acts-near-complete/{tg}', lambda: apply(r, case, th), lambda: apply(ref, case, th), [lin((Xexp, nus[0]))], f'{op} by {k} acts differently from a with X scaled to {Xexp}', hit='X:full-scaled')
     for op, fn, Xexp in (('imul', lambda x: x.__imul__(k), a.X * k), ('itruediv', lambda x: x.__itruediv__(k), a.X / k)):
         ip = a.copy()
         r = guarded('inplace', lambda: fn(ip))
@@ -396,8 +560,22 @@ def run_case(case, rec):
         rec.check(np.allclose(st1, exp, rtol=1e-12, atol=0), 'backwards', ('explicit' if explicit else 'default') + '/' + tg,
                   f'backwards({newr if explicit else ""}) is not the reversed reaction rescaled on {newr}: got {st1[np.nonzero(st1)].tolist()} expected {exp[np.nonzero(exp)].tolist()}')
     # ---- reaction sets: item X <-> set X; set copy / re-basing leaves the members alone
+    # the operands of everything below: b and c on the basis of a. Where that takes copy(basis) (the conversion a + b performs itself) the re-based copy is anchored
+    # against the reaction constructed from the description in the target basis: same coefficients (a few ulp), conversion, reactant, basis
+    bb = b if same_basis else guarded('rebase', lambda: b.copy(basis=a._basis))
+    cc = c if c._basis == a._basis else guarded('rebase', lambda: c.copy(basis=a._basis))
+    if bb is None or cc is None: return
+    for nm_, cp_, ref_, src_ in (('b', bb, bref, b), ('c', cc, cref, c)):
+        if cp_ is src_: continue
+        rec.hit('copy-basis-vs-description')
+        s1, s2 = snap(cp_), snap(ref_)
+        ok_ = s1[0].shape == s2[0].shape and np.allclose(s1[0], s2[0], rtol=1e-12, atol=0) and s1[1] == s2[1] and s1[2:] == s2[2:]
+        rec.check(ok_, 'rebase', f'copy-basis-vs-description/{src_._basis}-to-{a._basis}/{"tagged" if case["tagged"] else "phase-less"}',
+                  f'{nm_}.copy(basis={a._basis!r}) is not the reaction the description gives when constructed on that basis: coefficients {s1[0][np.nonzero(s1[0])].tolist()} vs {s2[0][np.nonzero(s2[0])].tolist()}, '
+                  f'X {s1[1]} vs {s2[1]}, reactant / basis / phases {s1[2:]} vs {s2[2:]}',
+                  residual=float(np.max(np.abs(s1[0] - s2[0]) / np.maximum(np.abs(s2[0]), 1e-300))) if s1[0].shape == s2[0].shape else None)
     for cls in (tmo.ParallelReaction, tmo.SeriesReaction):
-        members = [a.copy(), (b if same_basis else b.copy(basis=a._basis)).copy(), (c if c._basis == a._basis else c.copy(basis=a._basis)).copy()]
+        members = [a.copy(), bb.copy(), cc.copy()]
         msn = [snap(x) for x in members]
         rs = guarded('set-item-X', lambda: cls(members))
         if rs is None: continue
@@ -426,41 +604,31 @@ def run_case(case, rec):
         if cls is tmo.ParallelReaction:
             # combining the members that share a reactant (all three do): a new set, acting like the original, which stays as it was
             ssr = snap(rs)
-            before = guarded('reduce', lambda: apply(rs, case, th))
+            D3 = [Dabc]
+            before = side('reduce', lambda: apply(rs, case, th))
             rd = guarded('reduce', lambda: rs.reduce())
             if rd is not None:
                 rec.hit('reduce')
                 rec.check(same_snap(snap(rs), ssr), 'operands-unchanged', f'reduce/set/{tg}', f'ParallelReaction.reduce() changed the set it was called on: X before {ssr[1].tolist()} after {snap(rs)[1].tolist()}')
                 rec.check(rd is not rs and not (containers(rd) & containers(rs)), 'new-object', f'reduce/shared-container/{tg}', 'reduce() result shares stoichiometry containers with the original set')
-                after = guarded('reduce', lambda: apply(rd, case, th))
-                if before is not None and after is not None:
-                    d = differ(before, after, scale)
-                    rec.check(not d, 'add-vs-parallel', f'reduce/{tg}', f'the reduced set acts differently from the original parallel set: {d[:4]}')
-                again = guarded('reduce', lambda: apply(rs, case, th))
-                if before is not None and again is not None:
-                    d = differ(before, again, scale)
-                    rec.check(not d, 'operands-unchanged', f'reduce/set-acts/{tg}', f'after reduce() the original set acts differently from before: {d[:4]}')
+                after = side('reduce', lambda: apply(rd, case, th))
+                judge('add-vs-parallel', f'reduce/{tg}', after, before, D3, 'the reduced set acts differently from the original parallel set')
+                again = side('reduce', lambda: apply(rs, case, th))
+                judge('operands-unchanged', f'reduce/set-acts/{tg}', again, before, D3, 'after reduce() the original set acts differently from before')
         rec.check(all(same_snap(snap(x), s0) for x, s0 in zip(members, msn)), 'set-copy', f'members-changed/{cls.__name__}',
                   'building / copying / re-basing a reaction set changed the member reactions it was built from')
     # ---- further members of the operation family (coverage audit): sums, triples, set + set, basis setter, in-place arithmetic on set items, X write paths
-    bb = b if same_basis else b.copy(basis=a._basis)
-    cc = c if c._basis == a._basis else c.copy(basis=a._basis)
     sn = (snap(a), snap(bb), snap(cc))
     tri = guarded('add', lambda: sum([a, bb, cc]))
     if tri is not None:
         rec.hit('sum-of-three')
         unchanged('sum', (a, bb), sn[:2]); rec.check(same_snap(snap(cc), sn[2]), 'operands-unchanged', f'sum/c/{tg}', 'sum([a, b, c]) changed c'); fresh('sum', tri, (a, bb, cc))
-        lhs = guarded('add-vs-parallel', lambda: apply(tri, case, th)); rhs = guarded('add-vs-parallel', lambda: apply(tmo.ParallelReaction([a.copy(), bb.copy(), cc.copy()]), case, th))
-        if lhs is not None and rhs is not None:
-            d = differ(lhs, rhs, scale)
-            rec.check(not d, 'add-vs-parallel', f'three/{tg}', f'sum([a,b,c])(feed) != ParallelReaction([a,b,c])(feed): {d[:4]}')
+        compare('add-vs-parallel', f'three/{tg}', lambda: apply(tri, case, th), lambda: apply(tmo.ParallelReaction([a.copy(), bref.copy(), cref.copy()]), case, th), [Dabc],
+                'sum([a,b,c])(feed) != ParallelReaction([a,b,c])(feed)')
         if cc.X > 0 and a.X + bb.X > 0:
             m3 = guarded('sub', lambda: tri - cc); ab = guarded('add', lambda: a + bb)
             if m3 is not None and ab is not None:
-                lhs = guarded('sub-inverse', lambda: apply(m3, case, th)); rhs = guarded('sub-inverse', lambda: apply(ab, case, th))
-                if lhs is not None and rhs is not None:
-                    d = differ(lhs, rhs, scale)
-                    rec.check(not d, 'sub-inverse', f'three/{tg}', f'((a+b+c)-c)(feed) != (a+b)(feed): {d[:4]}')
+                compare('sub-inverse', f'three/{tg}', lambda: apply(m3, case, th), lambda: apply(ab, case, th), [Dabc_c], '((a+b+c)-c)(feed) != (a+b)(feed)')
     for nm, fn in (('add-zero', lambda: a + 0), ('radd-zero', lambda: 0 + a), ('sub-zero', lambda: a - 0)):
         sa6 = snap(a); r0 = guarded('new-object', fn)
         if r0 is not None: fresh(nm, r0, (a,)); unchanged(nm, (a,), (sa6,)); rec.check(same_snap(snap(r0), sa6), 'new-object', f'{nm}/value/{tg}', f'{nm} is not a copy of a')
@@ -469,16 +637,13 @@ def run_case(case, rec):
         nb = guarded('negated-operand', lambda: -bb)
         if nb is not None:
             rec.hit('negated-operand')
-            for nm, fn, ref_fn, need in (('a-(-b)', lambda: a - nb, lambda: a + bb, True), ('a+(-b)', lambda: a + nb, lambda: a - bb, a.X > bb.X),
-                                         ('a-=(-b)', lambda: a.copy().__isub__(nb), lambda: a + bb, True), ('a+=(-b)', lambda: a.copy().__iadd__(nb), lambda: a - bb, a.X > bb.X)):
+            for nm, fn, ref_fn, need, sg_ in (('a-(-b)', lambda: a - nb, lambda: a + bb, True, 1), ('a+(-b)', lambda: a + nb, lambda: a - bb, a.X > bb.X, -1),
+                                              ('a-=(-b)', lambda: a.copy().__isub__(nb), lambda: a + bb, True, 1), ('a+=(-b)', lambda: a.copy().__iadd__(nb), lambda: a - bb, a.X > bb.X, -1)):
                 if not need: continue
                 r1 = guarded('negated-operand', fn); r2 = guarded('negated-operand', ref_fn)
                 if r1 is None or r2 is None: continue
                 rec.check(abs(r1.X - r2.X) <= 1e-12 * max(abs(r2.X), 1e-300), 'negated-operand', f'{nm}/X/{tg}', f'{nm} has X={r1.X!r} but the equivalent form has X={r2.X!r} (a.X={a.X}, b.X={bb.X})')
-                lhs = guarded('negated-operand', lambda: apply(r1, case, th)); rhs = guarded('negated-operand', lambda: apply(r2, case, th))
-                if lhs is not None and rhs is not None:
-                    d = differ(lhs, rhs, scale)
-                    rec.check(not d, 'negated-operand', f'{nm}/acts/{tg}', f'{nm} acts differently from the equivalent form: {d[:4]}')
+                compare('negated-operand', f'{nm}/acts/{tg}', lambda: apply(r1, case, th), lambda: apply(r2, case, th), [lin((1, Da), (sg_, Db))], f'{nm} acts differently from the equivalent form')
     # basis setter on a copy: the original stays, the re-based reaction acts the same
     other = 'wt' if a._basis == 'mol' else 'mol'
     rb = a.copy(); sa7 = snap(a)
@@ -487,10 +652,8 @@ def run_case(case, rec):
         rec.hit('basis-setter')
         unchanged('basis-setter', (a,), (sa7,))
         rec.check(not (containers(rb) & containers(a)), 'new-object', f'basis-setter/shared-container/{tg}', 're-based copy shares stoichiometry containers with the original')
-        lhs = guarded('rebase', lambda: apply(rb, case, th, stream=True)); rhs = guarded('rebase', lambda: apply(a, case, th, stream=True))       # two bases: only a stream means the same on both sides
-        if lhs is not None and rhs is not None:
-            d = differ(lhs, rhs, scale)
-            rec.check(not d, 'rebase', tg, f'a copy re-based to {other} through the basis setter acts differently from the original: {d[:4]}')
+        # two bases: only a stream means the same on both sides
+        compare('rebase', tg, lambda: apply(rb, case, th, stream=True), lambda: apply(a, case, th, stream=True), [Da], f'a copy re-based to {other} through the basis setter acts differently from the original', stream=True)
     # set + set (item-wise)
     p_ = guarded('add', lambda: tmo.ParallelReaction([a.copy(), bb.copy()])); q_ = guarded('add', lambda: tmo.ParallelReaction([a.copy() * 0.5, cc.copy()]))
     if p_ is not None and q_ is not None:
@@ -500,34 +663,27 @@ def run_case(case, rec):
             rec.hit('set+set')
             rec.check(same_snap(snap(p_), sp_) and same_snap(snap(q_), sq_), 'operands-unchanged', f'set+set/{tg}', 'ParallelReaction + ParallelReaction changed an operand')
             rec.check(pq is not p_ and pq is not q_ and not (containers(pq) & (containers(p_) | containers(q_))), 'new-object', f'set+set/{tg}', 'set + set shares containers with an operand')
-            lhs = guarded('add-vs-parallel', lambda: apply(pq, case, th))
-            rhs = guarded('add-vs-parallel', lambda: apply(tmo.ParallelReaction([a.copy(), bb.copy(), a.copy() * 0.5, cc.copy()]), case, th))
-            if lhs is not None and rhs is not None:
-                d = differ(lhs, rhs, scale)
-                rec.check(not d, 'add-vs-parallel', f'set+set/{tg}', f'(p+q)(feed) != the four members in parallel: {d[:4]}')
+            ha = a.copy(); ha.X = 0.5 * a.X          # the reference member with half the conversion is made by assignment, not by the scaling under test
+            compare('add-vs-parallel', f'set+set/{tg}', lambda: apply(pq, case, th), lambda: apply(tmo.ParallelReaction([a.copy(), bref.copy(), ha, cref.copy()]), case, th),
+                    [lin((1.5, Da), (1, Db), (1, Dc))], '(p+q)(feed) != the four members in parallel')
     # in-place arithmetic on an item of a set: set and item keep describing the same reaction
     for op in ('iadd', 'isub', 'imul', 'itruediv'):
         rs2 = guarded('set-item-inplace', lambda: tmo.ParallelReaction([a.copy(), bb.copy()]))
         if rs2 is None: break
         it = rs2[0]
-        if op == 'iadd': ref0 = guarded('add', lambda: a + cc); doit = lambda: it.__iadd__(cc)
+        if op == 'iadd': ref0 = guarded('add', lambda: a + cc); doit = lambda: it.__iadd__(cc); Di = lin((1, Da), (1, Dc))
         elif op == 'isub':
             if not (a.X > cc.X > 0): continue
-            ref0 = guarded('sub', lambda: a - cc); doit = lambda: it.__isub__(cc)
-        elif op == 'imul': ref0 = a * k; doit = lambda: it.__imul__(k)
-        else: ref0 = a / k; doit = lambda: it.__itruediv__(k)
+            ref0 = guarded('sub', lambda: a - cc); doit = lambda: it.__isub__(cc); Di = lin((1, Da), (-1, Dc))
+        elif op == 'imul': ref0 = a * k; doit = lambda: it.__imul__(k); Di = lin((k, Da))
+        else: ref0 = a / k; doit = lambda: it.__itruediv__(k); Di = lin((1 / k, Da))
         scc = snap(cc)
         if ref0 is None or guarded('set-item-inplace', doit) is None: continue
         rec.hit('set-item-inplace')
         rec.check(same_snap(snap(cc), scc), 'operands-unchanged', f'item-{op}/right/{tg}', f'{op} on a set item changed its right operand')
-        lhs = guarded('set-item-inplace', lambda: apply(rs2, case, th)); rhs = guarded('set-item-inplace', lambda: apply(tmo.ParallelReaction([ref0.copy(), bb.copy()]), case, th))
-        if lhs is not None and rhs is not None:
-            d = differ(lhs, rhs, scale)
-            rec.check(not d, 'set-item-inplace', f'{op}/set/{tg}', f'after item {op} the set acts differently from ParallelReaction([a {op} c, b]): {d[:4]} (set X {np.asarray(rs2.X).tolist()})')
-        lhs = guarded('set-item-inplace', lambda: apply(rs2[0].copy(), case, th)); rhs = guarded('set-item-inplace', lambda: apply(ref0, case, th))
-        if lhs is not None and rhs is not None:
-            d = differ(lhs, rhs, scale)
-            rec.check(not d, 'set-item-inplace', f'{op}/item/{tg}', f'after item {op} the item acts differently from a {op} c: {d[:4]}')
+        compare('set-item-inplace', f'{op}/set/{tg}', lambda: apply(rs2, case, th), lambda: apply(tmo.ParallelReaction([ref0.copy(), bref.copy()]), case, th), [lin((1, Di), (1, Db))],
+                f'after item {op} the set acts differently from ParallelReaction([a {op} c, b]) (set X {np.asarray(rs2.X).tolist()})')
+        compare('set-item-inplace', f'{op}/item/{tg}', lambda: apply(rs2[0].copy(), case, th), lambda: apply(ref0, case, th), [Di], f'after item {op} the item acts differently from a {op} c')
     # X write paths: iteration items, slices, whole-array setter
     rs3 = guarded('set-item-X', lambda: tmo.ParallelReaction([a.copy(), bb.copy(), cc.copy()]))
     if rs3 is not None:
@@ -557,10 +713,7 @@ def run_case(case, rec):
             rec.check(r1 is ip, 'inplace', f'isub-direct/identity/{tg}', '-= returned another object')
             rec.check(same_snap(snap(bb), sbb), 'operands-unchanged', f'isub-direct/b/{tg}', 'a -= b / a - b changed b')
             rec.check(abs(ip.X - m1.X) <= 4e-16 * max(abs(m1.X), 1e-300) and abs(m1.X - (a.X - bb.X)) <= 4e-16, 'inplace', f'isub-direct/X/{tg}', f'(a -= b).X = {ip.X!r}, (a - b).X = {m1.X!r}, X_a - X_b = {a.X - bb.X!r}')
-            lhs = guarded('inplace', lambda: apply(ip, case, th)); rhs = guarded('inplace', lambda: apply(m1, case, th))
-            if lhs is not None and rhs is not None:
-                d = differ(lhs, rhs, scale)
-                rec.check(not d, 'inplace', f'isub-direct/{tg}', f'(a -= b) acts differently from a - b: {d[:4]}')
+            compare('inplace', f'isub-direct/{tg}', lambda: apply(ip, case, th), lambda: apply(m1, case, th), [lin((1, Da), (-1, Db))], '(a -= b) acts differently from a - b')
     for nm, fn in (('add-none', lambda: a + None), ('sub-none', lambda: a - None)):
         sa8 = snap(a); r0 = guarded('new-object', fn)
         if r0 is not None: fresh(nm, r0, (a,)); unchanged(nm, (a,), (sa8,)); rec.check(same_snap(snap(r0), sa8), 'new-object', f'{nm}/value/{tg}', f'{nm} is not a copy of a')
@@ -600,11 +753,11 @@ def run_case(case, rec):
             got = [rsys.X[0], list(rsys.X[1]), list(rsys.X[2])]
             rec.check(got == [0.012, [0.06, 0.011], [0.013, 0.09]], 'set-item-X', 'parts-to-system', f'X written on the parts / items not visible in ReactionSystem.X: {got}')
     # ---- third round: histories with kept handles (items / slices / system) around whole-array, scalar, element and augmented conversion writes
-    if case.get('hist'): run_history(case, rec, th, (a, bb, cc), tg, scale, guarded)
+    if case.get('hist'): run_history(case, rec, th, (a, bb, cc), tg, scale, guarded, side, judge, nus)
     if all(d['X'] > 0 and len(d['st']) >= 3 for d in case['rx'][:2]): rec.mark_nontrivial(case_hash(case))
 
 
-def run_history(case, rec, th, members, tg, scale, guarded):
+def run_history(case, rec, th, members, tg, scale, guarded, side, judge, nus):
     """one reaction set, handles taken and kept, conversions written through every door; after every write the set, fresh items, every held handle (and the enclosing
     system) must report the conversions written (the model is a list of stand-alone reactions updated by X assignment and the BINARY operator forms only). The first
     disagreement ends the history (what follows would only repeat it)."""
@@ -612,6 +765,7 @@ def run_history(case, rec, th, members, tg, scale, guarded):
     mem = [m.copy() for m in members]
     for m, x in zip(mem, h['X0']): m.X = x
     M = [m.copy() for m in mem]
+    Mm = [[dict(nus[i]), float(h['X0'][i])] for i in range(n)]        # the dense model of the members: [nu, X], harness arithmetic only
     rs = guarded('set-item-X', lambda: cls(mem))
     if rs is None: return
     rsys = None; single = [members[0].copy()]
@@ -654,10 +808,18 @@ def run_history(case, rec, th, members, tg, scale, guarded):
     def fk(form): return 'scalar' if form == 'scalar' else 'sequence'          # array / list / tuple share a key (the form is in the case)
 
     def model_assign(idxs, form, vals):
-        for j, i in enumerate(idxs): M[i].X = vals if form == 'scalar' else vals[j]
+        for j, i in enumerate(idxs): M[i].X = vals if form == 'scalar' else vals[j]; Mm[i][1] = float(vals if form == 'scalar' else vals[j])
 
     def model_iop(idxs, op, k):
-        for i in idxs: M[i].X = {'imul': M[i].X * k, 'itruediv': M[i].X / k, 'iadd': M[i].X + k, 'isub': M[i].X - k}[op]
+        for i in idxs:
+            M[i].X = {'imul': M[i].X * k, 'itruediv': M[i].X / k, 'iadd': M[i].X + k, 'isub': M[i].X - k}[op]
+            Mm[i][1] = {'imul': Mm[i][1] * k, 'itruediv': Mm[i][1] / k, 'iadd': Mm[i][1] + k, 'isub': Mm[i][1] - k}[op]
+
+    def model_combine(i, o, ov, sign):
+        # item (+=, -=) another reaction of conversion ov and stoichiometry nu_o: the combined reaction converts X +- ov through (X nu +- ov nu_o) / (X +- ov)
+        nu_i, x = Mm[i]; xn = x + sign * ov
+        D = lin((x, nu_i), (sign * ov, nus[o]))
+        Mm[i] = [lin((1 / xn, D)), xn]
 
     def do_iop(obj, op, k):
         # augmented assignment on the property: getter, in-place array operation, setter with the same array
@@ -688,27 +850,29 @@ def run_history(case, rec, th, members, tg, scale, guarded):
             rsys.X = [op[1], arg(op[2], op[3])]; single[0].X = op[1]; model_assign(range(n), op[2], op[3])
             if items or slices: rec.hit('history:system-assign-with-held-handles')
             return f'system-assign-{fk(op[2])}'
-        if name == 'system-elem': rsys.X[1][op[1]] = op[2]; M[op[1]].X = op[2]; return 'system-elem'
-        if name == 'set-elem': rs.X[op[1]] = op[2]; M[op[1]].X = op[2]; return 'set-elem'
+        if name == 'system-elem': rsys.X[1][op[1]] = op[2]; M[op[1]].X = op[2]; Mm[op[1]][1] = float(op[2]); return 'system-elem'
+        if name == 'set-elem': rs.X[op[1]] = op[2]; M[op[1]].X = op[2]; Mm[op[1]][1] = float(op[2]); return 'set-elem'
         if name == 'set-fullslice': rs.X[:] = np.array(op[1]); model_assign(range(n), 'array', op[1]); return 'set-fullslice'
         if name == 'set-iop': do_iop(rs, op[1], op[2]); model_iop(range(n), op[1], op[2]); return f'set-{op[1]}'
         if name == 'set-rebind': rs.X = rs.X * op[1]; model_iop(range(n), 'imul', op[1]); return 'set-rebind'
         if name == 'set-self': rs.X = rs.X; return 'set-self'
         if name == 'slice-assign':
             kind, sl, idxs = slices[op[1]]; sl.X = arg(op[2], op[3]); model_assign(idxs, op[2], op[3]); rec.hit('history:slice-assign'); return f'{kind[5:]}-assign-{fk(op[2])}'
-        if name == 'slice-elem': kind, sl, idxs = slices[op[1]]; sl.X[op[2]] = op[3]; M[idxs[op[2]]].X = op[3]; return f'{kind[5:]}-elem'
+        if name == 'slice-elem': kind, sl, idxs = slices[op[1]]; sl.X[op[2]] = op[3]; M[idxs[op[2]]].X = op[3]; Mm[idxs[op[2]]][1] = float(op[3]); return f'{kind[5:]}-elem'
         if name == 'slice-iop': kind, sl, idxs = slices[op[1]]; do_iop(sl, op[2], op[3]); model_iop(idxs, op[2], op[3]); return f'{kind[5:]}-{op[2]}'
-        if name == 'item-X': kind, it, i = items[op[1]]; it.X = op[2]; M[i].X = op[2]; return f'{kind[5:]}-X'
+        if name == 'item-X': kind, it, i = items[op[1]]; it.X = op[2]; M[i].X = op[2]; Mm[i][1] = float(op[2]); return f'{kind[5:]}-X'
         if name == 'item-iop':
             kind, it, i = items[op[1]]
             r = it.__imul__(op[3]) if op[2] == 'imul' else it.__itruediv__(op[3])
             M[i] = M[i] * op[3] if op[2] == 'imul' else M[i] / op[3]
+            Mm[i][1] = Mm[i][1] * op[3] if op[2] == 'imul' else Mm[i][1] / op[3]
             rec.check(r is it, 'inplace', f'history/{kind[5:]}-{op[2]}/identity/{cn}', f'{op[2]} on a {kind} returned another object')
             rec.hit('history:item-inplace'); return f'{kind[5:]}-{op[2]}'
         if name in ('item-iadd', 'item-isub'):
             kind, it, i = items[op[1]]; other = members[op[2]].copy(); other.X = op[3]; so = snap(other)
             r = it.__iadd__(other) if name == 'item-iadd' else it.__isub__(other)
             M[i] = M[i] + other if name == 'item-iadd' else M[i] - other
+            model_combine(i, op[2], float(op[3]), 1 if name == 'item-iadd' else -1)
             rec.check(r is it, 'inplace', f'history/{kind[5:]}-{name[5:]}/identity/{cn}', f'{name[5:]} on a {kind} returned another object')
             rec.check(same_snap(snap(other), so), 'operands-unchanged', f'history/{kind[5:]}-{name[5:]}/right/{cn}', f'{name[5:]} on a {kind} changed its right operand')
             rec.hit('history:item-inplace'); return f'{kind[5:]}-{name[5:]}'
@@ -729,19 +893,20 @@ def run_history(case, rec, th, members, tg, scale, guarded):
         if w and not checkpoint(w): rec.hit('history:ended-at-disagreement'); return
     rec.hit('history:complete')
     # the handles kept through the whole history act like the reactions the conversions written describe
-    def acts(what, obj, ref_fn):
-        lhs = guarded('set-item-X', lambda: apply(obj, case, th)); rhs = guarded('set-item-X', lambda: apply(ref_fn(), case, th))
-        if lhs is not None and rhs is not None:
-            rec.hit('history:acts')
-            d = differ(lhs, rhs, scale)
-            rec.check(not d, 'set-item-X', f'history/acts/{what}/{cn}/{tg}', f'after the history a {what} acts differently from the reaction(s) with the conversions written ({[m.X for m in M]}): {d[:4]}')
-    acts('set', rs, lambda: cls([m.copy() for m in M]))
+    def stages(ix):
+        Ds = [lin((Mm[i][1], Mm[i][0])) for i in ix]
+        return Ds if cls is tmo.SeriesReaction else [lin(*[(1, D) for D in Ds])]      # a series set acts member after member, a parallel set as the sum of its members
+
+    def acts(what, obj, ref_fn, st_):
+        judge('set-item-X', f'history/acts/{what}/{cn}/{tg}', side('set-item-X', lambda: apply(obj, case, th)), side('set-item-X', lambda: apply(ref_fn(), case, th)), st_,
+              f'after the history a {what} acts differently from the reaction(s) with the conversions written ({[m.X for m in M]})', hit='history:acts')
+    acts('set', rs, lambda: cls([m.copy() for m in M]), stages(range(n)))
     handles = items + slices
     if handles:
         kind, obj, ix = handles[h['pick'] % len(handles)]
-        if isinstance(ix, list): acts(kind, obj, lambda: cls([M[i].copy() for i in ix]))
-        else: acts(kind, obj, lambda: M[ix].copy())
-    if rsys is not None: acts('system', rsys, lambda: tmo.ReactionSystem(single[0].copy(), cls([m.copy() for m in M])))
+        if isinstance(ix, list): acts(kind, obj, lambda: cls([M[i].copy() for i in ix]), stages(ix))
+        else: acts(kind, obj, lambda: M[ix].copy(), [lin((Mm[ix][1], Mm[ix][0]))])
+    if rsys is not None: acts('system', rsys, lambda: tmo.ReactionSystem(single[0].copy(), cls([m.copy() for m in M])), [lin((float(single[0].X), nus[0]))] + stages(range(n)))
 
 
 def replay(case, rec):
@@ -758,3 +923,8 @@ def run(rec, rng, tier, shard, nshards):
         except Exception as e:
             rec.exception('harness', e, what=f'harness error: {type(e).__name__}: {e}')
         if i % 201 == 0: rec.sample(case)
+    # the comparisons that ended as refusals (both sides infeasible with the dense model agreeing, or the model undecided) must stay a small share: a regression cannot
+    # move the comparisons into 'not judged' (one-sided or model-contradicted InfeasibleRegion is a violation), and neither can a generator that starves the feeds
+    ncmp, nref = rec.reach.get('compare', 0), rec.reach.get('compare:refused', 0)
+    if ncmp and nref <= MAX_REFUSED_SHARE * ncmp: rec.hit('compare:refusal-share-bounded')
+    elif ncmp: rec.exception('harness', RuntimeError(f'{nref} of {ncmp} applied comparisons ended as refusals (bound {MAX_REFUSED_SHARE}): the feeds of the generator are not sufficient'))
